@@ -62,8 +62,11 @@ def gen(tier, rng):
         elif ctx == "def":
             data, script = b"\x30" + length(len(data_body)) + data_body, "tc { %s }" % inner
         elif ctx == "indef":
-            data, script = b"\x30\x80" + data_body + b"\x00\x00", "tc { %s }" % inner
+            # the end-of-contents marker: 00 00, or (BER only) with a long-form zero length
             eoc = b"\x00\x00"
+            if m == "ber" and rng.random() < 0.3:
+                eoc = rng.choice([b"\x00\x81\x00", b"\x00\x82\x00\x00", b"\x00\x83\x00\x00\x00", b"\x00\x84\x00\x00\x00\x00"])
+            data, script = b"\x30\x80" + data_body + eoc, "tc { %s }" % inner
         else:
             mid = b"\xa1" + length(len(data_body)) + data_body
             data, script = b"\x30" + length(len(mid)) + mid, "tc { tc { %s } }" % inner
